@@ -1,6 +1,7 @@
 """Generator of JDF programs around the runtime limits (C24).
 A program is a list of functions; a function = (nlocals_extra, flows);
-a flow = (access in 'R','W','RW','C', deps) ; a dep = (dir 'i'/'o', guard 'u'/'b'/'t') or
+a flow = (access in 'R','W','RW','C', deps) ; a dep = (dir 'i'/'o', guard 'u'/'b'/'t'/'m'; 'm' is a ternary whose
+two branches both reference memory) or
 (dir, guard, L, CT, CF): L local definitions "[ i0 = 0 .. 1, … ]" at the dependency level, CT / CF in front
 of the call of the true / false branch (only where the target is a task).
 One Python structure, two printers: JDF text and the one-line model case."""
@@ -50,6 +51,8 @@ def jdf_text(prog, malformed=None):
                     lines.append("%s %s" % (arrow, tgt1))
                 elif g == "b":
                     lines.append("%s %s ? %s" % (arrow, cond, tgt1))
+                elif g == "m":
+                    lines.append("%s %s ? A(k,0) : A(k,0)" % (arrow, cond))
                 else:
                     lines.append("%s %s ? %s : %s" % (arrow, cond, tgt1, tgt2))
             if not lines:
